@@ -51,6 +51,7 @@ type Run struct {
 	Work  string // scratch directory, removed by Finish
 	Start time.Time
 	Level string
+	Evidence bool // write the evidence file (false for replays)
 
 	mu         sync.Mutex
 	States     int64
@@ -88,7 +89,7 @@ func NewRun(prop, tier string) *Run {
 	if tier == "" {
 		tier = "quick"
 	}
-	r := &Run{Prop: prop, Tier: tier, Seed: envInt("VERIF_SEED", 1), Start: time.Now(), Level: "model_checking",
+	r := &Run{Prop: prop, Tier: tier, Seed: envInt("VERIF_SEED", 1), Start: time.Now(), Level: "model_checking", Evidence: true,
 		distinct: map[string]struct{}{}, Extra: map[string]any{}, known: map[string]string{}, knownSeen: map[string]bool{}}
 	base := filepath.Join(VerifDir, ".work")
 	os.MkdirAll(base, 0o755)
@@ -249,9 +250,11 @@ func (r *Run) Finish() int {
 	}
 	os.MkdirAll(filepath.Join(VerifDir, "evidence"), 0o755)
 	b, _ := json.MarshalIndent(ev, "", " ")
-	if err := os.WriteFile(filepath.Join(VerifDir, "evidence", r.Prop+".json"), b, 0o644); err != nil {
-		fmt.Fprintln(os.Stderr, "cannot write evidence:", err)
-		return ExitInfra
+	if r.Evidence {
+		if err := os.WriteFile(filepath.Join(VerifDir, "evidence", r.Prop+".json"), b, 0o644); err != nil {
+			fmt.Fprintln(os.Stderr, "cannot write evidence:", err)
+			return ExitInfra
+		}
 	}
 	if os.Getenv("VERIF_KEEP") == "" {
 		os.RemoveAll(r.Work)
